@@ -18,7 +18,10 @@ from harness.core import cN, cbool, clist, copt, cstr, ctuple
 LEVEL = "proof"
 IMPORTS = ["Common.Str", "C18.Model_C18"]
 
-PATH, QUERY = 0, 3
+PATH, HEADER, COOKIE, QUERY = 0, 1, 2, 3  # in the order of APIOperation.iter_parameters()
+LOC_IN = {PATH: "path", HEADER: "header", COOKIE: "cookie", QUERY: "query"}
+# node-spec key, location tag, Case attribute (= LOCATION_TO_CONTAINER[location]) of the four parameter containers
+CONTAINERS = [("pp", PATH, "path_parameters"), ("q", QUERY, "query"), ("h", HEADER, "headers"), ("c", COOKIE, "cookies")]
 
 # (method, path template, parameters in iter_parameters order: (location tag, name))
 OPS = [
@@ -50,7 +53,17 @@ OPS = [
     ("patch", "/orders/{id}", [(PATH, "id")]),  # 25
     ("delete", "/cla/{id}", [(PATH, "id")]),  # 26
     ("get", "/clas/{id}", [(PATH, "id")]),  # 27
+    # the same NAME declared in several locations (a parameter is identified by (location, name)), all four locations
+    ("post", "/orgs", []),  # 28
+    ("get", "/orgs/{id}/members", [(PATH, "id"), (QUERY, "id")]),  # 29
+    ("get", "/orgs/{id}", [(PATH, "id"), (HEADER, "id")]),  # 30
+    ("get", "/orgs/{id}/audit", [(PATH, "id"), (COOKIE, "id")]),  # 31
+    ("get", "/orgs/{id}/tags", [(PATH, "id"), (HEADER, "tag"), (COOKIE, "tag"), (QUERY, "tag")]),  # 32
+    ("delete", "/orgs/{id}", [(PATH, "id"), (HEADER, "id"), (COOKIE, "id"), (QUERY, "id")]),  # 33
+    ("put", "/orgs/{id}", [(PATH, "id"), (HEADER, "h"), (COOKIE, "c"), (QUERY, "q")]),  # 34  distinct names in the four locations
+    ("get", "/orgs/{id}/x", [(HEADER, "v"), (COOKIE, "v"), (PATH, "id")]),  # 35  declared in another order than iter_parameters yields
 ]
+LOCATED_OPS = [29, 30, 31, 32, 33, 34, 35]
 IDS = ["1", "2", "12", "1s", "", 1, 2]
 STATUSES = [None, 199, 200, 201, 204, 299, 300, 302, 399, 400, 403, 404, 409, 410, 499, 500, 503, 599]
 
@@ -67,7 +80,7 @@ def schema():
         for method, path, params in OPS:
             definition = {
                 "parameters": [
-                    {"name": name, "in": "path" if loc == PATH else "query", "required": loc == PATH, "schema": {"type": "string"}}
+                    {"name": name, "in": LOC_IN[loc], "required": loc == PATH, "schema": {"type": "string"}}
                     for loc, name in params
                 ],
                 "responses": {"200": {"description": "ok"}},
@@ -94,15 +107,29 @@ def response(status: int):
 #   {"op": i, "parent": None | index | "dangling", "status": int | None,
 #    "pp": dict | None, "pp_gen": bool, "pp_mut": dict | None,       path_parameters at construction / generated? / later mutation
 #    "q": dict | None, "q_gen": bool, "q_mut": dict | None,          same for query
-#    "linked": [[loc, name], ...]}                                   ground truth: what a link provided
+#    "h", "h_gen", "h_mut" / "c", "c_gen", "c_mut"                  same for headers / cookies (absent key = None / False / None)
+#    "linked": [[loc, name], ...]}                                   ground truth: the (location, name) pairs a link provided
 # ----------------------------------------------------------------------------------------
-def mk(op, parent=None, status=200, pp=None, pp_gen=False, pp_mut=None, q=None, q_gen=False, q_mut=None, linked=None):
+def mk(op, parent=None, status=200, pp=None, pp_gen=False, pp_mut=None, q=None, q_gen=False, q_mut=None, linked=None,
+       h=None, h_gen=False, h_mut=None, c=None, c_gen=False, c_mut=None):  # fmt: skip
     if pp is None and any(loc == PATH for loc, _ in OPS[op][2]):
         pp = {name: "1" for loc, name in OPS[op][2] if loc == PATH}
     return {
         "op": op, "parent": parent, "status": status, "pp": pp, "pp_gen": pp_gen, "pp_mut": pp_mut,
-        "q": q, "q_gen": q_gen, "q_mut": q_mut, "linked": [list(x) for x in (linked or [])],
+        "q": q, "q_gen": q_gen, "q_mut": q_mut, "h": h, "h_gen": h_gen, "h_mut": h_mut, "c": c, "c_gen": c_gen, "c_mut": c_mut,
+        "linked": [list(x) for x in (linked or [])],
     }  # fmt: skip
+
+
+def stored_of(nd, key):
+    """The container as the case was constructed with (what Case.__post_init__ stores)."""
+    return nd.get(key)
+
+
+def current_of(nd, key):
+    """The container at the time the check runs."""
+    mut = nd.get(key + "_mut")
+    return nd.get(key) if mut is None else {**(nd.get(key) or {}), **mut}
 
 
 def build(nodes):
@@ -117,21 +144,19 @@ def build(nodes):
     for nd in nodes:
         method, path, _ = OPS[nd["op"]]
         components = {}
-        if nd["pp_gen"]:
-            components[ComponentKind.PATH_PARAMETERS] = ComponentInfo(mode=GenerationMode.POSITIVE)
-        if nd["q_gen"]:
-            components[ComponentKind.QUERY] = ComponentInfo(mode=GenerationMode.POSITIVE)
+        for key, _, attr in CONTAINERS:
+            if nd.get(key + "_gen"):
+                components[ComponentKind(attr)] = ComponentInfo(mode=GenerationMode.POSITIVE)
         meta = CaseMetadata(
             generation=GenerationInfo(time=0.0, mode=GenerationMode.POSITIVE), components=components, phase=PhaseInfo.generate()
         )
         case = sch[path][method].Case(
-            path_parameters=None if nd["pp"] is None else dict(nd["pp"]), query=None if nd["q"] is None else dict(nd["q"]), meta=meta
+            **{attr: None if nd.get(key) is None else dict(nd[key]) for key, _, attr in CONTAINERS}, meta=meta
         )
         # what happens to a case after it was generated (a link, an override, a hook)
-        if nd["pp_mut"] is not None:
-            case.path_parameters = {**(case.path_parameters or {}), **nd["pp_mut"]}
-        if nd["q_mut"] is not None:
-            case.query = {**(case.query or {}), **nd["q_mut"]}
+        for key, _, attr in CONTAINERS:
+            if nd.get(key + "_mut") is not None:
+                setattr(case, attr, {**(getattr(case, attr) or {}), **nd[key + "_mut"]})
         cases.append(case)
     for nd, case in zip(nodes, cases):
         parent = nd["parent"]
@@ -228,16 +253,13 @@ def c_node(i, nd, S):
     method, path, params = OPS[nd["op"]]
     parent = nd["parent"]
     pid = None if parent is None else (cN(999) if parent == "dangling" else cN(node_id(parent)))
-    pp_cur = nd["pp"] if nd["pp_mut"] is None else {**(nd["pp"] or {}), **nd["pp_mut"]}
-    q_cur = nd["q"] if nd["q_mut"] is None else {**(nd["q"] or {}), **nd["q_mut"]}
-    # Build_node n_id n_parent n_method n_path n_pp n_query n_params n_linked n_status
-    return "(Build_node %s %s %s %s %s %s %s %s %s)" % (
+    # Build_node n_id n_parent n_method n_path n_pp n_query n_headers n_cookies n_params n_linked n_status
+    return "(Build_node %s %s %s %s %s %s %s %s %s %s %s)" % (
         cN(node_id(i)),
         copt(pid, "N"),
         S(method),
         S(path),
-        c_comp(nd["pp_gen"], nd["pp"], pp_cur, S),
-        c_comp(nd["q_gen"], nd["q"], q_cur, S),
+        *[c_comp(bool(nd.get(key + "_gen")), stored_of(nd, key), current_of(nd, key), S) for key in ("pp", "q", "h", "c")],
         clist([ctuple(cN(loc), S(name)) for loc, name in params], "(N * str)"),
         clist([ctuple(cN(loc), S(name)) for loc, name in nd["linked"]], "(N * str)"),
         copt(None if nd["status"] is None else cN(nd["status"]), "N"),
@@ -256,14 +278,14 @@ def model_body(nodes, k, st, S, light=False):
             f"(let h := {c_history(nodes, S)} in match nth_error h {k} with None => None | Some c => Some ("
             f"option_map (map n_id) (find_related h (n_id c)), use_after_free h c {s}, ensure_resource_availability h c {s}, "
             f"[uaf_allowed h c {s}; uaf_required h c {s}; avail_allowed h c {s}; wf h; is_last h c; true; "
-            f"delete_agrees_with_parent h; prefix_region_all h c; parent_not_3xx h c; override_faithful c], (@nil bool)) end)"
+            f"delete_agrees_with_parent h; prefix_region_all h c; parent_not_3xx h c; override_faithful c], (@nil bool), ensure_resource_availability_by_name h c {s}) end)"
         )
     return (
         f"(let h := {c_history(nodes, S)} in match nth_error h {k} with None => None | Some c => Some ("
         f"option_map (map n_id) (find_related h (n_id c)), use_after_free h c {s}, ensure_resource_availability h c {s}, "
         f"[uaf_allowed h c {s}; uaf_required h c {s}; avail_allowed h c {s}; wf h; is_last h c; is_root c || is_leaf h c; "
         f"delete_agrees_with_parent h; prefix_region_all h c; parent_not_3xx h c; override_faithful c], "
-        f"map (fun n => same_tree h n c) h) end)"
+        f"map (fun n => same_tree h n c) h, ensure_resource_availability_by_name h c {s}) end)"
     )
 
 
@@ -322,7 +344,7 @@ def model_eval(batch, light=False):
 def canon_model(nodes, v):
     """Parsed model tuple -> the canonical shape impl_checks returns + the spec/region bits."""
     assert v is not None, "checked node index outside the history"
-    related, uaf, avail, bits, tree = v[1]
+    related, uaf, avail, bits, tree, avail_by_name = v[1]
     out = {}
     out["related"] = None if related is None else [i - 1 for i in related[1]]
 
@@ -336,6 +358,7 @@ def canon_model(nodes, v):
 
     out["uaf"] = verdict(uaf, "UseAfterFree")
     out["avail"] = verdict(avail, "EnsureResourceAvailability")
+    out["avail_by_name"] = verdict(avail_by_name, "EnsureResourceAvailability")  # the name-only sentinel, not the code
     names = ["uaf_allowed", "uaf_required", "avail_allowed", "wf", "is_last", "root_or_leaf", "delete_agrees_with_parent",
              "prefix_region_all", "parent_not_3xx", "override_faithful"]  # fmt: skip
     out["bits"] = dict(zip(names, bits))
@@ -444,8 +467,11 @@ def o_wf(nodes):
 # ----------------------------------------------------------------------------------------
 # generators
 # ----------------------------------------------------------------------------------------
-def gen_node(rng, i, n_ops, ids, statuses, wild=True):
-    op = rng.randrange(n_ops)
+N_PLAIN_OPS = 28  # the operations gen_history draws from; the operations after them belong to gen_located / gen_history_located
+
+
+def gen_node(rng, i, n_ops, ids, statuses, wild=True, pool=None):
+    op = rng.randrange(n_ops) if pool is None else rng.choice(pool)
     method, path, params = OPS[op]
     nd = mk(op)
     nd["status"] = rng.choice(statuses)
@@ -506,8 +532,91 @@ def gen_node(rng, i, n_ops, ids, statuses, wild=True):
             nd["q_mut"] = rng.choice([None, {name: "b" for name in qnames}])
         else:
             nd["q"] = {name: "a" for name in qnames}
+    for key, loc in (("h", HEADER), ("c", COOKIE)):
+        names = [name for l, name in params if l == loc]
+        if names:
+            linked += gen_container(rng, nd, key, loc, names, rng.choice(FLOWS))
     nd["linked"] = linked
     return nd
+
+
+FLOWS = ["link", "link", "generated", "generated", "generated-then-link", "generated-then-other", "explicit-no-link", "absent"]
+
+
+def gen_container(rng, nd, key, loc, names, flow):
+    """Fill one parameter container of the node spec the way `flow` says; returns the (location, name) pairs a link provided."""
+    vals = ["a", "b", "1"]
+    if flow == "link":
+        # the link provided every parameter of this location: the container is explicit, not marked as generated
+        nd[key] = {name: rng.choice(vals) for name in names}
+        return [[loc, name] for name in names]
+    if flow == "generated":
+        nd[key], nd[key + "_gen"] = {name: rng.choice(vals) for name in names}, True
+        return []
+    if flow in ("generated-then-link", "generated-then-other"):
+        # generated, then some values replaced - by a link (ground truth: linked) or by something else (override_not_link region)
+        nd[key], nd[key + "_gen"] = {name: "0" for name in names}, True
+        changed = [name for name in names if rng.random() < 0.7] or names[:1]
+        nd[key + "_mut"] = {name: rng.choice(vals) for name in changed}
+        return [[loc, name] for name in changed] if flow == "generated-then-link" else []
+    if flow == "explicit-no-link":
+        nd[key] = {name: rng.choice(vals) for name in names}
+        return []
+    nd[key] = rng.choice([None, {}])
+    nd[key + "_gen"] = rng.random() < 0.5
+    return []
+
+
+def gen_located(rng):
+    """POST /orgs -> a linked operation that declares parameters in several locations, the SAME name in two or more of them
+    (or distinct names): every location independently link-provided / generated / generated then changed / explicit / absent,
+    biased towards 'exactly one location came from the link'; answered 4xx most of the time."""
+    nodes = [mk(28, status=rng.choice([201, 201, 201, 200, 299, 302, 400, None]))]
+    if rng.random() < 0.2:
+        nodes.append(mk(33, parent=0, status=rng.choice([204, 204, 404]), pp={"id": rng.choice(["1", "2"])}, linked=[[PATH, "id"]]))
+    op = rng.choice(LOCATED_OPS)
+    params = OPS[op][2]
+    locs = sorted({loc for loc, _ in params})
+    nd = mk(op, parent=0 if rng.random() < 0.9 else len(nodes) - 1)
+    r = rng.random()
+    if r < 0.45:
+        # one location from the link, the others not
+        the_one = rng.choice(locs)
+        flows = {loc: "link" if loc == the_one else rng.choice(["generated", "generated", "absent", "generated-then-other"]) for loc in locs}
+        if rng.random() < 0.5:
+            flows[the_one] = "generated-then-link"
+    elif r < 0.7:
+        flows = {loc: rng.choice(["link", "generated-then-link"]) for loc in locs}
+        if rng.random() < 0.5:
+            flows[rng.choice(locs)] = "generated"
+    else:
+        flows = {loc: rng.choice(FLOWS) for loc in locs}
+    linked = []
+    for key, loc, _ in CONTAINERS:
+        names = [name for l, name in params if l == loc]
+        if not names:
+            continue
+        linked += gen_container(rng, nd, key, loc, names, flows[loc])
+        if loc == PATH and nd["pp"] and "id" in nd["pp"] and rng.random() < 0.8:
+            # keep the identifier on the created resource most of the time
+            if nd["pp_mut"] and "id" in nd["pp_mut"]:
+                nd["pp_mut"]["id"] = "1"
+            else:
+                nd["pp"]["id"] = "1"
+    nd["linked"] = linked
+    st = rng.choice([404, 404, 400, 403, 409, 410, 499, 399, 500, 200])
+    nd["status"] = st
+    nodes.append(nd)
+    return nodes, len(nodes) - 1, st
+
+
+def gen_history_located(rng):
+    """Unstructured histories over the operations with parameters in several locations (any position of the checked node, any parent)."""
+    n = rng.choice([1, 2, 2, 3, 3, 4, 5])
+    pool = list(range(N_PLAIN_OPS, len(OPS))) + [28, 28, 0, 2]
+    nodes = [gen_node(rng, i, 0, ["1", "2"], [200, 201, 204, 404, 400, 302, None], False, pool) for i in range(n)]
+    k = n - 1 if rng.random() < 0.75 else rng.randrange(n)
+    return nodes, k, rng.choice([404, 400, 403, 409, 499, 200, 500])
 
 
 def gen_history(rng):
@@ -521,7 +630,7 @@ def gen_history(rng):
     elif kind < 0.8:
         n_ops, ids, statuses, wild = 18, ["1", "2", "12", 1], STATUSES, False
     else:
-        n_ops, ids, statuses, wild = len(OPS), IDS, STATUSES, True
+        n_ops, ids, statuses, wild = N_PLAIN_OPS, IDS, STATUSES, True
     nodes = [gen_node(rng, i, n_ops, ids, statuses, wild) for i in range(n)]
     k = n - 1 if rng.random() < 0.75 else rng.randrange(n)
     st = rng.choice([200, 200, 204, 404, 404, 400, 403, 409, 410, 500, 302, 599, 499, 399])
@@ -763,6 +872,10 @@ def compare_batch(chk, batch, stage, oracle=True, light=False):
         chk.count(f"nodes:{len(nodes)}")
         chk.count(f"uaf:{impl['uaf'][0]}")
         chk.count(f"avail:{impl['avail'][0]}")
+        if mod["avail_by_name"][:2] != mod["avail"][:2]:
+            chk.count("avail:model-differs-from-name-only-sentinel")
+        if len({name for _, name in OPS[nodes[k]["op"]][2]}) < len(OPS[nodes[k]["op"]][2]):
+            chk.count("checked-operation-declares-one-name-in-several-locations")
         ok = True
         if impl["related"] == "AssertionError" or mod["related"] is None or impl["related"] != mod["related"]:
             chk.disagree(f"{stage}: ScenarioRecorder.find_related vs Model_C18.find_related", canon, impl["related"], mod["related"])
@@ -770,7 +883,11 @@ def compare_batch(chk, batch, stage, oracle=True, light=False):
         for name in ("uaf", "avail"):
             if not same_verdict(nodes, k, impl[name], mod[name], name):
                 shown = mod[name] if mod[name][0] != "reported" else ["reported", mod[name][1], label(mod[name][2]), free_string(mod[name][2])]
-                chk.disagree(f"{stage}: {'use_after_free' if name == 'uaf' else 'ensure_resource_availability'} vs model", canon, impl[name], shown)
+                what = f"{stage}: {'use_after_free' if name == 'uaf' else 'ensure_resource_availability'} vs model"
+                if name == "avail" and same_verdict(nodes, k, impl[name], mod["avail_by_name"], name):
+                    what += (" (the implementation follows the name-only sentinel ensure_resource_availability_by_name: overridden names of all"
+                             " locations in one flat set, the location of the parameter is lost - theorem C18_avail_name_only_sentinel_refuted)")  # fmt: skip
+                chk.disagree(what, canon, impl[name], shown)
                 ok = False
         if not oracle or not isinstance(impl["related"], list):
             continue
@@ -846,6 +963,15 @@ CORPUS_BUILTIN = [
     ([mk(0, status=302), mk(1, parent=0, status=404, linked=[(PATH, "id")])], 1, 404),
     ([mk(0, status=201), mk(2, parent=0, status=204, linked=[(PATH, "id")]), mk(1, parent=0, status=404, linked=[(PATH, "id")])], 2, 404),
     ([mk(0, status=201), mk(1, parent=0, status=404)], 1, 404),
+    # the same name in two locations: path id from the link, the id of the other location generated (must pass); both linked (reported)
+    ([mk(28, status=201), mk(29, parent=0, status=404, pp={"id": "1"}, q={"id": "a"}, q_gen=True, linked=[(PATH, "id")])], 1, 404),
+    ([mk(28, status=201), mk(30, parent=0, status=404, pp={"id": "1"}, h={"id": "a"}, h_gen=True, linked=[(PATH, "id")])], 1, 404),
+    ([mk(28, status=201), mk(31, parent=0, status=404, pp={"id": "1"}, c={"id": "a"}, c_gen=True, linked=[(PATH, "id")])], 1, 404),
+    ([mk(28, status=201), mk(29, parent=0, status=404, pp={"id": "1"}, q={"id": "a"}, linked=[(PATH, "id"), (QUERY, "id")])], 1, 404),
+    ([mk(28, status=201), mk(32, parent=0, status=400, pp={"id": "1"}, h={"tag": "a"}, c={"tag": "a"}, c_gen=True, q={"tag": "a"}, q_gen=True,
+                             linked=[(PATH, "id"), (HEADER, "tag")])], 1, 400),  # fmt: skip
+    ([mk(28, status=201), mk(32, parent=0, status=400, pp={"id": "0"}, pp_gen=True, pp_mut={"id": "1"}, h={"tag": "a"}, h_gen=True,
+                             c={"tag": "a"}, q={"tag": "a"}, q_gen=True, linked=[(PATH, "id"), (COOKIE, "tag")])], 1, 400),  # fmt: skip
     # KeyError from ResourcePath.get, dangling parent
     ([mk(0, status=201), mk(2, parent=0, status=204), mk(23, parent=1, status=200)], 2, 200),
     ([mk(0, status=201), mk(2, parent="dangling", status=204), mk(1, parent=1, status=200)], 2, 200),
@@ -869,14 +995,16 @@ def run(chk: core.Check):
     chk.assumptions = [
         "cases belong to an Open API schema and are not 'Unspecified HTTP method' coverage cases (the two guards at the top of both checks are not modelled)",
         "path parameter values are compared through str() as the code does; query/override values are strings",
-        "only the path_parameters and query containers take part in the 'all parameters come from links' test of the model (headers and cookies go through the same get_component_diff)",
+        "header names are compared as written (Case.headers is a CaseInsensitiveDict, the generators use one spelling per header name); body parameters are not in iter_parameters",
         "recorder ids are distinct (dict keys); parent cycles are outside the model's domain (the real root climb does not terminate on them)",
     ]
     chk.rule = (
         "histories drawn from one PRNG (VERIF_SEED): 1-8 nodes over 28 operations (2 collections x ids in the core universe; nested resources, "
         "singular/plural and /class-/clas-/cla collections, trailing slashes, differently named identifiers, a query parameter, an unresolvable "
-        "identifier segment in the wide universe), ids incl. prefixes of each other and int/str twins, 16 statuses incl. none, parents among earlier "
-        "nodes / none / dangling, containers explicit / generated / generated then mutated / absent; checked node = last (75%) or any; "
+        "identifier segment, operations that declare one parameter NAME in several locations (path/header/cookie/query) in the wide universe), ids incl. prefixes of each other and int/str twins, 16 statuses incl. none, parents among earlier "
+        "nodes / none / dangling, containers (path_parameters, query, headers, cookies) explicit / generated / generated then mutated / absent; "
+        "a fifth of the histories (drawn in addition): POST /orgs -> linked operation with the same name in 2-4 locations, each location independently from the link or "
+        "generated, biased to exactly one linked location; checked node = last (75%) or any; "
         "thorough: additionally every history of <= 4 nodes over 2 collections x 2 ids x {POST,GET,DELETE} x {success,404} x every parent assignment; "
         "non-trivial = some check reports or some reference predicate holds; distinct by canonical JSON"
     )
@@ -898,8 +1026,10 @@ def run(chk: core.Check):
     if chk.broken:
         n *= 10 if quick else 3  # a broken proof or tie must try hard to find a concrete failing input
     batch = [gen_history(rng) if rng.random() < 0.5 else gen_lifecycle(rng) for _ in range(n)]
+    # parameters of one name in several locations (drawn after the others: their PRNG stream stays what it was)
+    batch += [gen_located(rng) if rng.random() < 0.75 else gen_history_located(rng) for _ in range(n // 4)]
     compare_batch(chk, batch, "random")
-    chk.stages["correspondence_histories"] = {"corpus": len(corpus), "random": n}
+    chk.stages["correspondence_histories"] = {"corpus": len(corpus), "random": n, "random_parameters_in_several_locations": n // 4}
 
     # ---- exhaustive small universe
     if not quick:
